@@ -28,11 +28,12 @@ TECHNIQUE = "Lean 4 state-machine theorems (ownership logic) + sanitizer-instrum
 DESIGN_REF = "DESIGN.md section 6 C15"
 EXPLANATION = ("(A) Lean: Model/Lifecycle.lean is an executable model of Router object lifetime; Props/C15.lean proves, for every "
                "legal history, live_sets_refine, freed_once, no_dangling_action, conn_ends_valid, all_released (and no_fault "
-               "under strict legality), and proves by evaluation that the documented-legal histories K1..K5 produce a leak / "
-               "assertion / re-entry / use-after-free in the model. (B) harness/c15.cpp generates strictly legal histories "
+               "under strict legality), and proves by evaluation that the documented-legal histories K1, K2, K4 produce a leak / "
+               "assertion / use-after-free in the model (former K3/K5, repaired in /repo, are now proved legal and fault-free). (B) harness/c15.cpp generates strictly legal histories "
                "(5-40 ops quick, up to 60 thorough; both routing modes; transactions on/off and switched; deleting shapes whose "
                "pins are in use; deleting connectors inside a pending transaction; move+delete in one transaction; deleting "
-               "junctions; destroying the router with queued actions) plus vpsc/cola/topology/dialect lifecycles, runs them "
+               "junctions; destroying the router with queued actions; with transactions off also deleteJunction, moving obstacles with "
+               "attached connectors, the 3-argument ConnRef constructor and new pins on attached shapes) plus vpsc/cola/topology/dialect lifecycles, runs them "
                "under ASan+UBSan+LSan with assertions on, calls __lsan_do_recoverable_leak_check() after every case, and "
                "driver_c15 replays each Router history in the model, checks Legal for every op and compares the observable "
                "live sets after every op. Each known defect class is replayed by its own harness invocation (--mode kf-*).")
